@@ -341,14 +341,31 @@ class Interp:
                 out.append(val(v, r.state))
             return out
         if isinstance(e, ast.Slice):
-            return [val(TOP, st)]
+            parts = [e.lower, e.upper, e.step]
+            out = []
+            for r in self.eval_list([p_ for p_ in parts if p_ is not None], st, fr):
+                if r.kind == "exc":
+                    out.append(r)
+                    continue
+                it = iter(r.value)
+                vals_ = tuple(next(it) if p_ is not None else NONE for p_ in parts)
+                out.append(val(("slice",) + vals_, r.state))
+            return out
         if isinstance(e, ast.BinOp):
             out = []
             for r in self.eval_list([e.left, e.right], st, fr):
                 out.append(r if r.kind == "exc" else val(d.binop(e, r.value[0], r.value[1]), r.state))
             return out
         if isinstance(e, ast.JoinedStr):
-            return [val(NOTNONE, st)]
+            hook = getattr(d, "joined_str", None)
+            if hook is None:
+                return [val(NOTNONE, st)]
+            parts = [v.value if isinstance(v, ast.FormattedValue) else v for v in e.values]
+            plain = all(not isinstance(v, ast.FormattedValue) or (v.conversion == -1 and v.format_spec is None) for v in e.values)
+            out = []
+            for r in self.eval_list(parts, st, fr):
+                out.append(r if r.kind == "exc" else val(hook(list(r.value)) if plain else NOTNONE, r.state))
+            return out
         if isinstance(e, ast.Lambda):
             return [val(("func", e), st)]
         if isinstance(e, (ast.ListComp, ast.SetComp, ast.GeneratorExp, ast.DictComp)):
@@ -389,10 +406,10 @@ class Interp:
         if not getattr(self.domain, "track_lists", False):
             return None
         f = call.func
-        if not (isinstance(f, ast.Attribute) and f.attr in ("append", "extend") and isinstance(f.value, ast.Name) and len(call.args) == 1 and not call.keywords):
+        if not (isinstance(f, ast.Attribute) and f.attr in ("append", "extend") and len(call.args) == 1 and not call.keywords):
             return None
-        key = fr.local(f.value.id)
-        if not st.has(key):
+        key = self._key_of(f.value, fr)   # a local, or an attribute of self kept in the state
+        if key is None or not st.has(key):
             return None
         cur = st.get(key)
         if cur == EMPTY:
@@ -1229,8 +1246,14 @@ class Interp:
             else:
                 outs = self.exec_block(func.body, [s0], fr)
             results = []
+            mutable_params = [p_ for p_ in [x.arg for x in allp] if isinstance(argvals.get(p_), tuple) and argvals[p_][:1] in (("kwdict",),)]
             for kind, payload, s2 in outs:
                 s3 = s2.drop_prefix(fr.prefix)
+                # a dict handed in by the caller and changed in place: hand the final content back
+                for p_ in mutable_params:
+                    final = s2.get(fr.local(p_), None)
+                    if final is not None and final != argvals[p_]:
+                        s3 = s3.set("outparam." + p_, final)
                 if kind == "return":
                     results.append(val(payload, s3))
                 elif kind == "next":
@@ -1332,7 +1355,22 @@ class Interp:
             if unknown_star:
                 for p_ in params + kwonly:
                     argvals.setdefault(p_, TOP)
-            out.extend(self.inline(f, argvals, r.state, fr, receiver=receiver, is_method=bind_self))
+            # arguments that are plain names: the callee may have changed the dict they refer to
+            back = {}
+            for i, a in enumerate(call.args):
+                if isinstance(a, ast.Name) and i < len(params):
+                    back[params[i]] = fr.local(a.id)
+            for k in call.keywords:
+                if k.arg is not None and isinstance(k.value, ast.Name):
+                    back[k.arg] = fr.local(k.value.id)
+            for rr in self.inline(f, argvals, r.state, fr, receiver=receiver, is_method=bind_self):
+                s2 = rr.state
+                for p_, ckey in back.items():
+                    if s2.has("outparam." + p_):
+                        s2 = s2.set(ckey, s2.get("outparam." + p_))
+                if any(k_.startswith("outparam.") for k_, _ in s2.items):
+                    s2 = s2.drop_prefix("outparam.")
+                out.append(Result(rr.kind, rr.value, s2))
         return out
 
     def auto_inline(self, call, st, fr, classes=None):
